@@ -52,6 +52,7 @@ func runC17(c *hx.Ctx) {
 	var scns []*scn
 	scns = append(scns, fixedScenarios()...)
 	scns = append(scns, scheduleScenarios(c)...)
+	scns = append(scns, optionScenarios(c)...)
 	scns = append(scns, randomScenarios(c)...)
 	if c.Replay != "" {
 		// a replay file selects scenarios by `name=<scenario>` and/or `family=<name prefix>` tokens
@@ -113,6 +114,19 @@ func runC17(c *hx.Ctx) {
 			}
 		}
 		c.Emit("end %d", s.id)
+		if s.observe {
+			dk := make([]string, 0, len(s.directs))
+			for k := range s.directs {
+				dk = append(dk, k)
+			}
+			sort.Strings(dk)
+			for _, k := range dk {
+				c.Emit("direct %s %d %s ok %s", k, s.id, s.name, s.directs[k])
+			}
+			c.Stat("scenarios", 1)
+			s.mu.Unlock()
+			continue
+		}
 		if pending > 0 {
 			c.Emit("direct stop %d %s FAIL %d-futures-pending-after-the-final-Stop(true)-returned", s.id, s.name, pending)
 		} else {
